@@ -20,6 +20,11 @@ def main(argv):
     ctx.only = only
     if hasattr(module, "setup"):
         module.setup(ctx)
+    reach = None
+    if getattr(module, "REACH_FILES", None) and not getattr(ctx, "_reach", None):
+        from rv import probes
+        reach = probes.Reach()
+        reach.start()
     try:
         if hasattr(module, "run_shard"):
             module.run_shard(ctx)
@@ -50,6 +55,9 @@ def main(argv):
                     signal.setitimer(signal.ITIMER_REAL, 0)
                 ctx.count("evaluations")
     finally:
+        if reach is not None:
+            reach.stop()
+            ctx.extra["reach"] = reach.dump()
         if hasattr(module, "teardown"):
             module.teardown(ctx)
     with open(outfile, "w") as f:
